@@ -142,14 +142,7 @@ def to_steps(ck, inputs):
     return behs
 
 
-def script(behs):
-    lines = []
-    for i, beh in enumerate(behs):
-        lines.append("B %d" % i)
-        for st in beh:
-            toks = [st["a"]] + ["%s=%s" % (k, vlib.fmt_val(v)) for k, v in st["arg"].items()]
-            lines.append(" ".join(toks))
-    return "\n".join(lines) + "\n"
+script = c09.script
 
 
 def style(arg):
@@ -158,7 +151,8 @@ def style(arg):
 
 def run_and_validate(ck, exe, behs, tag):
     """Execute, then let TLC judge every recorded run.  Returns (events, rejects, tlcresult)."""
-    recs, _ = vlib.run_driver(exe, script(behs), timeout=1200)
+    recs, done = c09.run_guarded(exe, behs, chunk=1000, timeout=1200)
+    behs = behs[:done]
     by = vlib.group_records(recs)
     events, faults = [], []
     for b, beh in enumerate(behs):
@@ -247,7 +241,8 @@ def run(tier):
     #     (section start / option / section end with element paths and values); a successful
     #     mpt_parse_config must have shown exactly that sequence to its handler
     behsA = [[{"a": "events", "arg": st["arg"], "exp": {"ev": st["exp"]["ev"]}}] for st in cases]
-    recsA, _ = vlib.run_driver(exe, script(behsA), timeout=900)
+    recsA, doneA = c09.run_guarded(exe, behsA, chunk=1000)
+    behsA = behsA[:doneA]
     mmsA = vlib.compare(behsA, recsA, match_events)
     seen = {}
     for mm in mmsA:
